@@ -51,6 +51,7 @@ def plan(seed, n_ops, sizes=(3, 4, 5, 6, 7, 8), with_tokens=True):
     rng = random.Random(seed)
     ex = Executor(record=True)
     ops = []
+    plan.last_executor = ex
 
     def do(op):
         ops.append(op)
@@ -590,19 +591,44 @@ def shrink(ops, kinds, lineage_kinds, fail_kind, budget_runs=24):
 # ---------------------------------------------------------------------------------- entry points for checks
 
 
-def run(ctx, Violation, kinds, lineage_kinds=(), n_sessions=None, n_ops=None, sizes=(3, 4, 5, 6, 7, 8), with_tokens=None):
-    """Run sessions for a property check; returns Violations (with shrunk call-sequence replays)."""
+def start(ctx, kinds, lineage_kinds=(), n_sessions=None, n_ops=None, sizes=(3, 4, 5, 6, 7, 8), with_tokens=None):
+    """Launch the sessions of a property check, each planned, executed and judged in its own fresh
+    interpreter, in the background (they run while the check's tie does).  `finish` collects them."""
     kinds = set(kinds)
     if with_tokens is None:
         with_tokens = "encode" in kinds or "retained" in kinds
     n_sessions = n_sessions or (6 if ctx.thorough else 2)
     n_ops = n_ops or (12000 if ctx.thorough else 5000)
-    out_v = []
+    procs = []
     for s in range(n_sessions):
         seed = ctx.seed * 7919 + s * 104729 + 17
         szs = sizes if s % 2 == 0 else tuple(rng_pick(seed, sizes))
-        ops = plan(seed, n_ops, szs, with_tokens)
-        fs = run_fresh(ops, kinds, lineage_kinds)
+        payload = json.dumps({"plan": {"seed": seed, "n_ops": n_ops, "sizes": list(szs), "with_tokens": with_tokens}, "kinds": sorted(kinds), "lineage": sorted(lineage_kinds)})
+        p = subprocess.Popen([env.PYTHON, "-m", "harness.lib.session"], cwd=env.VERIF, env=dict(os.environ), stdin=subprocess.PIPE, stdout=subprocess.PIPE, stderr=subprocess.PIPE)
+        p.stdin.write(payload.encode())
+        p.stdin.close()
+        p.stdin = None
+        procs.append(p)
+    return {"procs": procs, "kinds": kinds, "lineage": set(lineage_kinds)}
+
+
+def finish(ctx, Violation, handle):
+    """Collect the sessions started by `start`; returns Violations (with shrunk call-sequence replays)."""
+    kinds, lineage_kinds = handle["kinds"], handle["lineage"]
+    out_v = []
+    results = []
+    for p in handle["procs"]:
+        try:
+            so, se = p.communicate(timeout=1800)
+            rc = p.returncode
+        except Exception as e:
+            p.kill()
+            raise RuntimeError("session subprocess did not finish: %r" % (e,))
+        if rc != 0:
+            raise RuntimeError("session subprocess failed: " + se.decode(errors="replace")[-1500:])
+        results.append(json.loads(so.decode().strip().split("\n")[-1]))
+    for res in results:
+        ops, fs = res["ops"], res["fails"]
         ctx.evaluated(len(ops))
         ctx.count("session:ops", len(ops))
         for op in ops:
@@ -636,9 +662,21 @@ def replay(ctx, Violation, data):
     return [Violation("session-" + f["kind"], f["what"], rp) for f in fs[:1]]
 
 
+def run(ctx, Violation, **kw):
+    return finish(ctx, Violation, start(ctx, **kw))
+
+
 def _main():
     payload = json.loads(sys.stdin.read())
     env.setup_impl_path(None)
+    if "plan" in payload:
+        # plan and execute in one go in this fresh interpreter (planning runs every operation once)
+        pl = payload["plan"]
+        ops = plan(pl["seed"], pl["n_ops"], tuple(pl["sizes"]), pl["with_tokens"])
+        ex = plan.last_executor
+        fs = judge(ex.out, ex.finish(), payload["kinds"], payload.get("lineage", ()))
+        print(json.dumps({"ops": ops, "fails": fs}))
+        return
     out, bad = execute(payload["ops"])
     fs = judge(out, bad, payload["kinds"], payload.get("lineage", ()))
     print(json.dumps(fs))
